@@ -28,7 +28,8 @@ RULE = ("parse level: for each of the 25 classes, every valid skeleton (minimal,
         "value of a typed corpus (None, bools, 0, -1, 2^53, 2^53+1, floats, empty/short/upper-case/non-ASCII/whitespace/'#'/"
         "empty-component strings, trailing newline, bytes, lists, dicts incl. non-str keys, nested, Decimal/ndarray/CBOR "
         "undefined as delivered by CBOR/UBJSON decoders), key deleted, nested corruptions of forward_for / roles / id lists, "
-        "length -2..+2, unknown keys; URI level: every string up to length 5 (6 thorough) over {a z 0 _ . # space A e-acute "
+        "(forward_for chains of 2-4 hops with one malformed hop of 27 kinds at every position; id/str lists with the malformed element first, "
+        "middle, last), length -2..+2, unknown keys; URI level: every string up to length 5 (6 thorough) over {a z 0 _ . # space A e-acute "
         "newline} through check_or_raise_uri in all six modes and through parse() at every URI position kind; serializer "
         "level (JSON, MsgPack, CBOR, UBJSON x batched/unbatched): every type code of a corpus, non-list top levels, every "
         "single-byte mutation (quick: 6 per offset, thorough: all 255), truncation and extension of valid encodings of every "
@@ -80,6 +81,8 @@ DECIDING = {
     "typecodes_judged": 100,
     "decoder_values_judged": 2000,
     "decoder_value_kinds": 15,
+    "ff_nonlast_malformed_judged": 5000,     # forward_for chains of 2..4 hops whose malformed hop is NOT the last one
+    "ff_nonlast_classes": 13,
     # thorough-only depth (absent = 0 in quick)
     "pair_cases": lambda tier: 0 if tier == "quick" else 500000,
     "triple_cases": lambda tier: 0 if tier == "quick" else 100000,
@@ -202,10 +205,32 @@ def nested_corpus(opt):
             out.append(("ff-missing-%s" % key, [d]))
         out.append(("ff-extra-key", [dict(FF_GOOD, extra=1)]))
         out.append(("ff-int-key", [{1: 2}]))
+        # chains of 2..4 hops with ONE malformed hop at EVERY position (a validator that only remembers its verdict on the
+        # last / first hop passes the other positions): label ffchain<len>@<pos>:<kind>
+        bad_hops = [("hop=%s" % lab, v) for lab, v in small if lab != "dict"] + [("hop=empty-dict", {}), ("hop=int-key", {1: 2})]
+        for key in ("session", "authid", "authrole"):
+            d = dict(FF_GOOD)
+            del d[key]
+            bad_hops.append(("missing-%s" % key, d))
+        for key, vals in (("session", [("null", None), ("str", "1"), ("1.5", 1.5), ("list", [1]), ("dict", {})]),
+                          ("authid", [("1", 1), ("bytes", b"x"), ("list", ["a"]), ("dict", {})]),
+                          ("authrole", [("null", None), ("1", 1), ("bytes", b"x"), ("list", ["a"])])):
+            for lab, v in vals:
+                bad_hops.append(("%s=%s" % (key, lab), dict(FF_GOOD, **{key: v})))
+        bad_hops.append(("extra-junk", dict(FF_GOOD, junk=[1, {"a": None}])))       # not must-reject: totality only
+        for ln in (2, 3, 4):
+            for pos in range(ln):
+                for lab, hop in bad_hops:
+                    chain = [dict(FF_GOOD, session=i + 1) for i in range(ln)]
+                    chain[pos] = hop
+                    out.append(("ffchain%d@%d:%s" % (ln, pos, lab), chain))
     elif t in ("list-int", "list-str"):
         for lab, v in small + [("2^53+1", 2 ** 53 + 1)]:
             out.append(("[%s]" % lab, [v]))
             out.append(("[ok,%s]" % lab, [(1 if t == "list-int" else "a"), v]))
+            ok = 1 if t == "list-int" else "a"
+            out.append(("[%s,ok]" % lab, [v, ok]))                  # malformed element first / in the middle, too
+            out.append(("[ok,%s,ok]" % lab, [ok, v, ok]))
     elif t == "roles":
         r0 = opt.roles[0]
         f0 = G.FEATURES[r0][0]
@@ -504,6 +529,9 @@ class Monitor:
                             d[o.key] = v
                         w = list(wire)
                         w[spec.dictpos] = d
+                        if lab.startswith("ffchain") and int(lab[9]) < int(lab[7]) - 1 and "extra-junk" not in lab:
+                            R.count("ff_nonlast_malformed_judged")
+                            R.seen("ff_nonlast_classes", spec.name)
                         self.parse_case(spec, w, "%s.%s=%s" % (spec.dictname, o.key, lab), sname)
                 # unknown keys are to be ignored (or at least only ever produce protocol errors)
                 for lab, v in CORPUS[::4]:
@@ -879,6 +907,24 @@ class Monitor:
                         R.count("decoder_values_judged")
                         R.seen("decoder_value_kinds", "%s|%s" % (base, lab))
                         self.unser_case(sid, ser, batched, data, "decoder-value@%s[%s]=%s" % (spec.name, where, lab))
+            # D1d: multi-hop forward_for chains with a malformed hop at every position, through the whole octet path
+            for spec, sname, wire in bases:
+                o = spec.opt_by_key.get("forward_for")
+                if o is None or sname != "full":
+                    continue
+                for ci, (lab, chain) in enumerate(c for c in nested_corpus(o) if c[0].startswith("ffchain")):
+                    n += 1
+                    if n % parts != part or (ci % 4 and tier == "quick"):
+                        continue
+                    w = list(wire)
+                    w[spec.dictpos] = dict(wire[spec.dictpos], forward_for=chain)
+                    try:
+                        data = enc(w)
+                    except Exception:
+                        R.count("lib_encode_failed")
+                        continue
+                    R.count("ff_chains_as_octets")
+                    self.unser_case(sid, ser, batched, data, "structured@%s.forward_for=%s" % (spec.name, lab))
             # D3: arbitrary octets
             if (hash(sid) + 0) % 1 == 0:
                 for b in range(256):
